@@ -28,5 +28,7 @@ pub mod txt {
 /// A [`PathUnawareUdpScionSocket`](crate::stack::PathUnawareUdpScionSocket) over an in-memory
 /// underlay, with the SCMP handlers wired as the stack wires them.
 pub mod socket {
-    pub use crate::stack::verif::{MemUnderlay, ScmpErrorLog, udp_socket_over};
+    pub use crate::stack::verif::{
+        MemUnderlay, ScmpErrorLog, udp_socket_over, udp_socket_with_receivers,
+    };
 }
